@@ -121,6 +121,13 @@ def run_gridattrs(ctx: Ctx) -> None:
                 got = it.method(g, "physical_space_to_index", _ref_points(RS, o, k))
                 if not teq(got.type(F64), k.type(F64)):
                     return False, "physical_space_to_index(position of sample k) is not k"
+                # nearest sample of points between samples and outside the image on either side (ITK TransformPhysicalPointToIndex)
+                frac = STensor.from_nested([[Fraction(-6, 5), Fraction(12, 5), Fraction(-37, 10)][:D], [Fraction(33, 10), Fraction(-1, 5), Fraction(7, 10)][:D]])
+                near = STensor.from_nested([[-1, 2, -4][:D], [3, 0, 1][:D]]).type(I64)
+                got = it.method(g, "physical_space_to_index", _ref_points(RS, o, frac))
+                if not teq(got.type(F64), near.type(F64)):
+                    return False, (f"physical_space_to_index of the positions of continuous indices {frac.tolist()} is {got.tolist()}, "
+                                   f"expected the nearest samples {near.tolist()}")
                 return True, ""
             _guard(ctx, rule, f"D={D}:{route}:physical->index", f_p2i, f"route={route} D={D}", back)
 
